@@ -17,7 +17,7 @@ import z3
 from ..common import Inconclusive, Scratch, seed, tier
 from ..compile import CompileError, compile_inproc, write_files
 from ..crt import CBuild, CMsg
-from ..families import Case, case_of, f_shape_core
+from ..families import Case, case_of, f_shape_core, is_extensible_case
 from ..tmplsym import PASCAL, RD, Abs, Ctx, Translator
 from . import cenc
 from .cenc import Cfg
@@ -43,12 +43,30 @@ def work_prefix(job: Tuple[Case, Tuple[str, str], Cfg]) -> Dict[str, Any]:
     with Scratch() as sc:
         try:
             a = CBuild(case, sc.dir, tag="_plain")
-            b = CBuild(pc, sc.dir, tag="_prefixed")
-            b.name_prefix = pascal  # type: ignore  # documented scheme: PascalCase prefix on type and function names
             ma, ka = a.modules(cfg.olevel, cfg.target, msgs=case.messages)
-            mb, kb = b.modules(cfg.olevel, cfg.target, msgs=pc.messages)
         except (CompileError, Inconclusive) as e:
             res["inconclusive"].append(f"{res['case']}: {e}")
+            return res
+        try:
+            b = CBuild(pc, sc.dir, tag="_prefixed")
+            b.name_prefix = pascal  # type: ignore  # documented scheme: PascalCase prefix on type and function names
+            mb, kb = b.modules(cfg.olevel, cfg.target, msgs=pc.messages)
+        except (CompileError, Inconclusive) as e:
+            # the same schema builds without the option: does gcc reject the prefixed output too?
+            from ..common import REPO, run
+
+            g = None
+            try:
+                b2 = CBuild(pc, sc.dir, tag="_prefixed_gcc")
+                g = run(["gcc", "-fsyntax-only", "-w", "-I", b2.gen, "-I", os.path.join(REPO, "lib", "c")] + b2.cfiles(), timeout=120)
+            except (CompileError, Inconclusive):
+                pass
+            if g is not None and g.returncode != 0:
+                err = next((l for l in g.stderr.split("\n") if "error" in l), g.stderr[-200:])
+                res["violations"].append({"what": f"{res['case']}: with c.name_prefix the generated C no longer compiles (it does without the option): {err.strip()[:200]}", "payload": {"kind": "c", "files": pc.proto.files()},
+                                          "confirmed": True, "info": {"kind": "prefix-breaks-build", "key": "prefix-breaks-build"}})
+            else:
+                res["inconclusive"].append(f"{res['case']}: {e}")
             return res
         # layout constants (sizeof, offsets, sizes) are identical; BYTES_LENGTH macro exists under the upper-case prefix
         diff = {k: (ka.get(k), kb.get(k)) for k in ka if k.startswith(("bpv_sizeof", "bpv_off", "bpv_sz")) and ka.get(k) != kb.get(k)}
@@ -139,15 +157,114 @@ def _q(res: Dict[str, Any], ctx: Ctx, neg: Any, what: str) -> None:
         res["samples"].append({"template": what, "verdict": "unsat for every name"})
 
 
+# ---- (c) supporting concrete observation: the documented names exist in the three outputs
+import re as _re
+
+_WORD = _re.compile(r"[A-Z][a-z]*|[a-z]+")
+
+
+def _letters_only(name: str) -> bool:
+    return bool(_re.fullmatch(r"[A-Za-z]+", name))
+
+
+def _upper_snake(names: List[str]) -> str:
+    return "_".join(w.upper() for n in names for w in _WORD.findall(n))
+
+
+def _pascal(prefix: str) -> str:
+    return "".join(w.capitalize() for w in prefix.strip("_").split("_") if w)
+
+
+def work_names(job: Tuple[Case, str]) -> Dict[str, Any]:
+    """Independent reference for the documented scheme, restricted to names made of letters only (PascalCase words),
+    where the scheme is unambiguous: every message appears as C `struct <Enclosing...Own>` with `Encode/Decode/Json<..>`
+    and `BYTES_LENGTH_<UPPER_SNAKE>`, Python `class <Enclosing_..._Own>`, Go `type <Enclosing...Own> struct` with
+    `BYTES_LENGTH_<UPPER_SNAKE>`; members of an enum declared inside messages carry the UPPER_SNAKE names of the enclosing
+    messages in front; Go struct fields carry the schema field name as JSON tag.  With `c.name_prefix` the PascalCase /
+    upper-case prefix leads every C name and nothing changes in Go and Python.  No symbolic variable: text observation."""
+    from ..schema import Enum as SEnum
+    from ..schema import Message as SMessage
+
+    case, prefix = job
+    res = new_result(case)
+    res["case"] = f"names:{case.name}{'+' + prefix if prefix else ''}"
+    cs = prefixed(case, prefix) if prefix else case
+    P, PU = (_pascal(prefix), prefix.upper() if prefix.endswith("_") else prefix.upper() + "_") if prefix else ("", "")
+    outs: Dict[str, str] = {}
+    with Scratch() as sc:
+        src = sc.path("src")
+        os.makedirs(src)
+        write_files(cs.proto.files(), src)
+        try:
+            for lang, opt in (("c", False), ("c", True), ("go", False), ("py", False)):
+                if opt and is_extensible_case(case):
+                    continue
+                gen = sc.path(f"gen_{lang}_{int(opt)}")
+                compile_inproc(src, cs.proto.fname(), lang, gen, optimize=opt)
+                for f in os.listdir(gen):
+                    if f.startswith(cs.proto.stem() + "_bp"):
+                        outs[f"{lang}{'-O' if opt else ''}:{f.rsplit('.', 1)[1]}"] = open(os.path.join(gen, f)).read()
+        except CompileError as e:
+            res["inconclusive"].append(f"{res['case']}: {e}")
+            return res
+    missing: List[str] = []
+
+    def need(where: str, pattern: str, what: str) -> None:
+        res["obligations"] += 1
+        for k, text in outs.items():
+            if k.startswith(where) and not _re.search(pattern, text):
+                missing.append(f"{k}: {what}")
+
+    def walk(defs: List[Any], chain: List[str]) -> None:
+        for d in defs:
+            if isinstance(d, SMessage):
+                ch = chain + [d.name]
+                if all(_letters_only(n) for n in ch):
+                    flat, us = "".join(ch), _upper_snake(ch)
+                    need("c:h", rf"\bstruct {P}{flat} \{{", f"struct {P}{flat}")
+                    need("c-O:h", rf"\bstruct {P}{flat} \{{", f"struct {P}{flat}")
+                    for fn in ("Encode", "Decode"):
+                        need("c:h", rf"\b{fn}{P}{flat}\(", f"{fn}{P}{flat}()")
+                        need("c-O:h", rf"\b{fn}{P}{flat}\(", f"{fn}{P}{flat}()")
+                    need("c:h", rf"\bJson{P}{flat}\(", f"Json{P}{flat}()")
+                    need("c:h", rf"#define BYTES_LENGTH_{PU}{us} \d+", f"BYTES_LENGTH_{PU}{us}")
+                    need("py", rf"(?m)^class {'_'.join(ch)}\(", f"class {'_'.join(ch)}")
+                    need("go", rf"(?m)^type {flat} struct", f"type {flat} struct")
+                    need("go", rf"\bBYTES_LENGTH_{us}\b", f"BYTES_LENGTH_{us}")
+                    for f in d.fields:
+                        if _re.fullmatch(r"[a-z][a-z_]*[a-z]|[a-z]", f.name):
+                            need("go", rf'json:"{f.name}"', f'JSON tag "{f.name}" in {flat}')
+                walk(d.nested, ch)
+            elif isinstance(d, SEnum):
+                if all(_letters_only(n) for n in chain + [d.name]):
+                    for mname, _v in d.members:
+                        if not _re.fullmatch(r"[A-Z]+(_[A-Z]+)*", mname):
+                            continue
+                        full = (_upper_snake(chain) + "_" if chain else "") + mname
+                        need("c:h", rf"#define {PU}{full} \d+", f"enum member macro {PU}{full}")
+                        need("go", rf"\b{full}\b", f"enum member {full}")
+                        need("py", rf"\b{full}\b", f"enum member {full}")
+
+    walk(cs.proto.defs, [])
+    res["messages"] = len(case.messages)
+    if missing:
+        res["violations"].append({"what": f"{res['case']}: documented API names are missing from the generated code: {'; '.join(missing[:4])}" + (f" (+{len(missing) - 4} more)" if len(missing) > 4 else ""),
+                                  "payload": {"kind": "names", "files": cs.proto.files(), "main": cs.proto.fname(), "missing": missing[:20]}, "confirmed": True, "info": {"kind": "names", "key": "documented-names"}})
+    elif len(res["samples"]) < 1:
+        res["samples"].append({"case": res["case"], "names_checked": res["obligations"]})
+    return res
+
+
 def main() -> int:
     from .agg import run_parts
 
     q = tier() == "quick"
-    keep = ("nest5", "nested_decl", "arr_msg", "arr_nd", "arr_bytes", "ext7", "extalias", "perm9", "empty", "wide3", "sarr24", "drone", "enum9", "batch16_5", "packed2")
+    keep = ("imp_shared", "imp_lib", "imp_nested_dp", "nest5", "nested_decl", "nested_decl3", "arr_msg", "arr_nd", "arr_bytes", "ext7", "extalias", "perm9", "empty", "wide3", "sarr24", "drone", "enum9", "batch16_5", "packed2")
     bases = [c for c in f_shape_core() if c.name in keep]
     cfgs = [Cfg("O0", "x86_64"), Cfg("O2", "x86_64")]
     jobs = [(c, PREFIXES[i % 2] if q else p, cfgs[i % 2] if q else cfg) for i, c in enumerate(bases) for p in (PREFIXES[:1] if q else PREFIXES) for cfg in (cfgs[:1] if q else cfgs)]
-    parts = [("c-name-prefix-invariance", work_prefix, jobs), ("api-name-templates", work_templates, [0])]
+    name_jobs = [(c, p) for c in f_shape_core() if "noc" not in c.tags for p in ("", "my_lib")]
+    parts = [("c-name-prefix-invariance", work_prefix, jobs), ("api-name-templates", work_templates, [0]), ("documented-names", work_names, name_jobs)]
     meta = {
         "functions_encoded": cenc.C_FILES + ["compiler/bitproto/renderer/impls/go/formatter.py", "compiler/bitproto/renderer/impls/py/formatter.py"],
         "bounds": f"{len(bases)} structural schemas x prefixes `pre`, `my_lib` x clang IR -O0/-O2 (x86-64); all values; name templates: message names <= 12, file stems <= 8 characters",
